@@ -271,6 +271,15 @@ def summarise(I, n, it, st):
                 if isinstance(v, (ListVal, DictVal, LocalArr, Obj)) and inv.get(id(v)) in orig:
                     ov.attrs[k] = orig[inv[id(v)]]; continue
                 ov.attrs[k] = Opaque(f"attribute {k} written in loop")
+    if is_while and not summary["exits"]:
+        # a name last assigned inside a while loop holds, after the loop, its value of the LAST iteration (it = trips - 1): per-iteration
+        # expression with the loop-carried entry symbols expressed per iteration
+        for nm, v in list(final.items()):
+            if isinstance(v, Opaque) and (v.why.endswith("after while loop") or v.why.endswith("defined in loop")):
+                cur = trial.env.get(nm)
+                if cur is not None and _is_scalar(cur) and not any(is_opaque(l) for l in _leaves(cur)):
+                    try: final[nm] = subst_val(subst_pv(cur, remap), last)
+                    except Unknown: pass
     for nm, v in final.items():
         st.env[nm] = v
     if not is_while and isinstance(n.target, ast.Name):
